@@ -388,7 +388,7 @@ mutual
   theorem checkType_congr {c c' : Str} {r r' : Renames} {imps imps' : List ImportedType}
       (h : ∀ id, resolveRenamed c r imps id = resolveRenamed c' r' imps' id) :
       ∀ t : RustType, checkType c r imps t = checkType c' r' imps' t
-    | .generic id ps => by simp only [checkType]; rw [checkTypes_congr h ps]
+    | .generic id ps => by simp only [checkType]; rw [checkTypes_congr h ps, h id]
     | .vec t => by simp only [checkType]; rw [checkType_congr h t]
     | .array t n => by simp only [checkType]; rw [checkType_congr h t]
     | .slice t => by simp only [checkType]; rw [checkType_congr h t]
